@@ -19,9 +19,12 @@ import (
 // unknown ids), QoS 0/1 passed on as they arrive, no acknowledgement for a
 // delivery the application rejected.
 
-func init() {
-	core.Register(&core.Check{ID: "C10", Expand: expandC10, Run: runC10})
-}
+// ExpandC10 / RunC10: the check is registered by the e2e package, which adds an
+// end-to-end seed class (real clients against the real broker) to it.
+func ExpandC10(t *testing.T, seed uint64, tier string) []*core.Plan { return expandC10(t, seed, tier) }
+
+// RunC10 runs one plan of the scripted-peer classes.
+func RunC10(t *testing.T, p *core.Plan) *core.Result { return runC10(t, p) }
 
 var errRejected = errors.New("application rejects the message")
 
